@@ -180,7 +180,7 @@ def all_encoded():
     return out
 
 
-def run(W, backend, fam, mode, x, y, starts, L, w, omega, order, chunk=None):
+def run(W, backend, fam, mode, x, y, starts, L, w, omega, order, chunk=None, prior_q=None):
     """call one backend function; symbolic world: clone on proxies; concrete world: the real function.
     chunk: value for the NumPy fallbacks' _chunk keyword (exercises their chunk loop at small K)"""
     st = rnp.asarray(starts, dtype=rnp.int64)
@@ -190,6 +190,8 @@ def run(W, backend, fam, mode, x, y, starts, L, w, omega, order, chunk=None):
         f = (GC if backend == "cuda" else G)[fname(backend, fam, mode)]
         args = [x] + ([y] if mode == "csd" else []) + [st, L, w, omega]
         if fam == "poly":
+            if prior_q:
+                G["_build_Q"](L, prior_q)         # history: a basis of another order was built for this segment length earlier in the process
             args.append(G["_build_Q"](L, order))
         res = f(*args, **kw)
         return [plain(v) for v in res]
@@ -198,6 +200,8 @@ def run(W, backend, fam, mode, x, y, starts, L, w, omega, order, chunk=None):
     xs = rnp.ascontiguousarray(x, dtype=rnp.float64)
     args = [xs] + ([rnp.ascontiguousarray(y, dtype=rnp.float64)] if mode == "csd" else []) + [st, L, rnp.ascontiguousarray(w, dtype=rnp.float64), float(omega)]
     if fam == "poly":
+        if prior_q:
+            core._build_Q(L, prior_q)
         args.append(core._build_Q(L, order))
     return [float(v) for v in f(*args, **kw)]
 
